@@ -1,0 +1,12 @@
+//go:build verif
+// +build verif
+
+package bundler
+
+import "github.com/evanw/esbuild/internal/graph"
+
+// Thin wrapper (no logic) used by the verification harness in /verif (C08).
+
+func VerifFindReachableFiles(files []graph.InputFile, entryPoints []graph.EntryPoint) []uint32 {
+	return findReachableFiles(files, entryPoints)
+}
